@@ -31,7 +31,7 @@ def run(ctx, f, rep):
         rep.bad("R09.1", "R09.1|anchor", "RouterSocket::recv not found (anchor-missing)")
     else:
         n = 0
-        for p in pathq.paths(f, co):
+        for p in pathq.paths(f, co, inline_async=True):
             if p.end != "return" or pathq.ret_kind(p) != "Ok":
                 continue
             n += 1
@@ -57,7 +57,7 @@ def run(ctx, f, rep):
         rep.bad("R09.2", "R09.2|anchor", "RouterSocket::send not found (anchor-missing)")
     else:
         nw = nmiss = 0
-        for p in pathq.paths(f, co):
+        for p in pathq.paths(f, co, inline_async=True):
             ww = wire_writes(p)
             for i, ev in ww:
                 nw += 1
